@@ -8,7 +8,7 @@ kf = json.load(open('/verif/known_findings.json'))['findings']
 rows = ["| Property | Commit | What failed |", "|----------|--------|-------------|"]
 for f in kf:
     rows.append(f"| {f['property']} | `{f['commit']}` | {f['what'].split(f['commit'], 1)[1].strip()} |")
-seeds = ["| Seed | Change | Needs | Check result |", "|------|--------|-------|--------------|"]
+seeds = ["| Seed | Change | Needs | Check result | Missed at first? what was added |", "|------|--------|-------|--------------|------|"]
 n = det = 0
 for d in sorted(glob.glob('/verif/seeded/*')):
     m = json.load(open(d + '/meta.json'))
@@ -16,7 +16,7 @@ for d in sorted(glob.glob('/verif/seeded/*')):
     n += 1
     det += all(v['detected'] for v in cr.values())
     res = ", ".join(f"{c} ({'detected' if v['detected'] else 'MISSED'})" for c, v in cr.items())
-    seeds.append(f"| `{os.path.basename(d)}` | {m['summary'][:150].replace('|', '/')} | {m['needs'][:140].replace('|', '/')} | {res} |")
+    seeds.append(f"| `{os.path.basename(d)}` | {m['summary'][:150].replace('|', '/')} | {m['needs'][:140].replace('|', '/')} | {res} | {m.get('strengthening', '').replace('|', '/')} |")
 def put(tag, body):
     global s
     b, e = f"<!-- BEGIN {tag} -->", f"<!-- END {tag} -->"
